@@ -109,20 +109,16 @@ func (in *Interp) feltUF(name string, args ...*Term) *Term {
 // hashApp creates an application of an uninterpreted hash with range < P.
 func (in *Interp) hashApp(name string, args ...*Term) *Term {
 	r := in.st.App(name, 256, args...)
+	if _, ok := in.st.axioms[r.id]; !ok {
+		// range axiom for this ground application (asserted by the solver layer wherever r is used)
+		in.st.axioms[r.id] = in.st.Cmp(OpULt, r, in.st.ConstBig(256, feltP))
+	}
 	key := fmt.Sprintf("hashrange:%d", r.id)
 	if _, ok := in.extra[key]; !ok {
 		in.extra[key] = true
-		// range axiom for this ground application
-		in.addAxiom(in.st.Cmp(OpULt, r, in.st.ConstBig(256, feltP)))
 		in.recordHashApp(name, r)
 	}
 	return r
-}
-
-// addAxiom asserts a fact that holds on every path (not a branch decision).
-func (in *Interp) addAxiom(c *Term) {
-	in.pc = append(in.pc, c)
-	in.sol.Assert(c)
 }
 
 type hashAppRec struct {
